@@ -1,5 +1,5 @@
-CONSTANTS Clients = {1, 2, 3} Services = {"a", "b"} Supported = {"a", "b"} Base = 1 S = 1 MaxFrames = 3 Threaded = FALSE LevelsUsed = {1} Discards = {FALSE}
+CONSTANTS Clients = {1, 2, 3} Services = {"a", "b"} Supported = {"a", "b"} Base = 1 S = 1 MaxFrames = 3 Threaded = FALSE LevelsUsed = {1} Discards = {FALSE} Faulty = {}
 SPECIFICATION Spec
-INVARIANTS TypeOK RefCount CursorOK QueueOrder Buffers Delivery InOrder DeviceOpen
+INVARIANTS TypeOK RefCount CursorOK QueueOrder Buffers Delivery InOrder DeviceOpen CanCapture
 PROPERTIES Filtered LossOnlyWhenFull OnlyBlockedLose
 CHECK_DEADLOCK FALSE
